@@ -155,20 +155,33 @@ impl AckFrame {
 
     /// Iterate through the sequence numbers of the packets acknowledged by the iterative ACK frame,
     /// starting from the largest and going down.
+    ///
+    /// The field values come from the peer: a range that would reach below packet number 0
+    /// ends the iteration (see [`AckFrame::is_well_formed`]), it never underflows.
     pub fn iter(&self) -> impl Iterator<Item = RangeInclusive<u64>> + '_ {
         let right = self.largest.into_u64();
-        let left = right - self.first_range.into_u64();
-        Some(left..=right).into_iter().chain(
+        let first = right
+            .checked_sub(self.first_range.into_u64())
+            .map(|left| left..=right);
+        let smallest = first.as_ref().map(|range| *range.start());
+        first.into_iter().chain(
             self.ranges
                 .iter()
                 .map(|(gap, range)| (gap.into_u64(), range.into_u64()))
-                .scan(left, |largest, (gap, range)| {
-                    let right = *largest - gap - 2;
-                    let left = right - range;
-                    *largest = left;
+                .scan(smallest, |smallest, (gap, range)| {
+                    let right = smallest.take()?.checked_sub(gap)?.checked_sub(2)?;
+                    let left = right.checked_sub(range)?;
+                    *smallest = Some(left);
                     Some(left..=right)
                 }),
         )
+    }
+
+    /// Whether every computed packet number is non-negative. If any computed packet number
+    /// is negative, the frame is malformed and the receiver MUST generate a connection error
+    /// of type FRAME_ENCODING_ERROR, see [Section 19.3.1](https://www.rfc-editor.org/rfc/rfc9000.html#section-19.3.1).
+    pub fn is_well_formed(&self) -> bool {
+        self.iter().count() == 1 + self.ranges.len()
     }
 }
 
